@@ -361,12 +361,12 @@ example : Sema.Gen.FactsC10.searchCuts = ["skipEntry", "limitCut"] := by decide
 dispatcher asks `getOperation` for every schema key with both documents and skips only on `opSkip`
 (the same facts are pinned, one by one, in C10/Props.lean) -/
 example : Sema.Gen.FactsC10.insertSkips = [] ∧
-    Sema.Gen.FactsC10.updateSkips = ["err == pointstore.ErrPointDoesNotExist"] ∧
-    Sema.Gen.FactsC10.deleteSkips = ["err == pointstore.ErrPointDoesNotExist"] ∧
+    Sema.Gen.FactsC10.updateSkips = ["b4 == pointstore.ErrPointDoesNotExist"] ∧
+    Sema.Gen.FactsC10.deleteSkips = ["b4 == pointstore.ErrPointDoesNotExist"] ∧
     Sema.Gen.FactsC10.updateChange = ["NodeId", "PreviousData", "NewData"] ∧
-    Sema.Gen.FactsC10.dispatchRange = "propName of im.indexSchema" ∧
-    Sema.Gen.FactsC10.dispatchOperationArgs = ["dec", "propName", "change.PreviousData", "change.NewData"] ∧
-    Sema.Gen.FactsC10.dispatchSkips = ["op == opSkip"] := by decide
+    Sema.Gen.FactsC10.dispatchRange = "a2 of v1.indexSchema" ∧
+    Sema.Gen.FactsC10.dispatchOperationArgs = ["v7", "a2", "a1.PreviousData", "a1.NewData"] ∧
+    Sema.Gen.FactsC10.dispatchSkips = ["a6 == opSkip"] := by decide
 
 /-! ### non-vacuity: the hypotheses of the theorems hold on concrete non-trivial states -/
 
